@@ -449,6 +449,17 @@ bool load_replay_file(const std::string &path, std::string *target, std::vector<
 // death hooks: a sanitizer report or an assert() aborts the process without unwinding; flush the
 // counters and the current case first so the failure stays reproducible.
 
+#if defined(__SANITIZE_THREAD__)
+#  define VH_BUILT_WITH_TSAN 1
+#elif defined(__has_feature)
+#  if __has_feature(thread_sanitizer)
+#    define VH_BUILT_WITH_TSAN 1
+#  endif
+#endif
+#ifndef VH_BUILT_WITH_TSAN
+#  define VH_BUILT_WITH_TSAN 0
+#endif
+
 static void on_death()
 {
   Global &g = G();
@@ -467,7 +478,12 @@ static void on_death()
     fprintf(stderr, "VH-CRASH target=%s replay=%s\n", g.cur_target->name.c_str(),
             g.crash_path.c_str());
   }
+#if !VH_BUILT_WITH_TSAN
+  // (under ThreadSanitizer the hook runs inside the runtime's report path: the more instrumented code
+  // runs here, the likelier a deadlock in TSan's own locks - seen once; the counters of a dying TSan
+  // process are given up, the crash replay above is what matters)
   stats_write();
+#endif
 }
 
 static void on_signal(int sig)
